@@ -86,7 +86,7 @@ func probeStatus(in *Inst, op *Op, t reflect.Type, code int) (int, string) {
 	FillReaders(v)
 	saved := in.Respond
 	in.Respond = func(c *Call) reflect.Value { return v }
-	req := httptest.NewRequest(op.Method, "http://h.example"+in.P.BasePath+concretePath(op.Template), nil)
+	req := httptest.NewRequest(op.Method, "http://h.example"+escapeForURL(in.P.BasePath+concretePath(op.Template)), nil)
 	in.Reset()
 	rec, pan := in.Serve(req)
 	in.Respond = saved
@@ -334,10 +334,15 @@ func checkWritten(p *Pkg, info implInfo, v reflect.Value, raw []byte, rec *Recor
 		va := refmodel.Validator{Doc: p.Doc, Mode: refmodel.Output}
 		if errs := va.Validate(d.Schema, tree); len(errs) > 0 {
 			kind := "body-schema"
-			if nb, nerr := safeMarshal(NormalizeNil(v.FieldByName("Body")).Interface()); nerr == nil {
-				if nt, derr := refmodel.DecodeJSON(nb); derr == nil && len(va.Validate(d.Schema, nt)) == 0 {
-					kind = "body-nil-collection-encoded-as-null"
+			if k := NilCollectionKind(v.FieldByName("Body"), func(nv reflect.Value) bool {
+				nb, nerr := safeMarshal(nv.Interface())
+				if nerr != nil {
+					return false
 				}
+				nt, derr := refmodel.DecodeJSON(nb)
+				return derr == nil && len(va.Validate(d.Schema, nt)) == 0
+			}); k != "" {
+				kind = "body-" + k
 			}
 			return kind, fmt.Sprintf("body %s does not validate: %s", clip(string(body), 200), strings.Join(errs, "; "))
 		}
@@ -436,7 +441,7 @@ func CheckC02(p *Pkg, e *Env, r *res.Result) {
 		tg := targets[rapid.IntRange(0, len(targets)-1).Draw(t, "target")]
 		v, raw, g := genResponse(t, p, tg.info, tg.docs)
 		in.Respond = func(c *Call) reflect.Value { return v }
-		req := httptest.NewRequest(tg.op.Method, "http://h.example"+p.BasePath+concretePath(tg.op.Template), nil)
+		req := httptest.NewRequest(tg.op.Method, "http://h.example"+escapeForURL(p.BasePath+concretePath(tg.op.Template)), nil)
 		in.Reset()
 		// a middleware in front of the API may have announced a default Content-Type: a
 		// response with documented content is still written with its documented type
@@ -570,7 +575,7 @@ func CheckC10(p *Pkg, e *Env, r *res.Result) {
 		return
 	}
 	var forced *http.Response
-	client, err := NewClient(p, "http://h.example"+p.BasePath, func(req *http.Request) (*http.Response, error) {
+	client, err := NewClient(p, "http://h.example"+escapedBase(p.BasePath), func(req *http.Request) (*http.Response, error) {
 		if forced != nil {
 			return forced, nil
 		}
@@ -582,6 +587,15 @@ func CheckC10(p *Pkg, e *Env, r *res.Result) {
 		r.Inconclusive = append(r.Inconclusive, p.Name+": "+err.Error())
 		return
 	}
+	// raw (non-JSON) response bodies are handed to the caller as a stream: half of those
+	// cases travel over loopback through a real *http.Client, where a body stays readable
+	// only as long as nobody has closed it
+	srv := httptest.NewServer(in.H)
+	defer srv.Close()
+	hc := srv.Client()
+	// (the response under test is the one the handler wrote, not where a redirect leads)
+	hc.CheckRedirect = func(*http.Request, []*http.Request) error { return http.ErrUseLastResponse }
+	realClient, _ := NewClient(p, srv.URL+escapedBase(p.BasePath), func(req *http.Request) (*http.Response, error) { return hc.Do(req) })
 	n := 100 * len(targets)
 	if !e.Quick() {
 		n = 300 * len(targets)
@@ -634,7 +648,12 @@ func CheckC10(p *Pkg, e *Env, r *res.Result) {
 			}
 			forced = nil
 			in.Reset()
-			resp, cerr, pan := CallClient(client, tg.op, params)
+			cl := client
+			if code, _ := strconv.Atoi(tg.info.Doc.Status); raw != nil && realClient.IsValid() && tg.op.Method != "HEAD" && (tg.info.Doc.Status == "default" || code >= 200 && code != 204 && code != 304) && rapid.Bool().Draw(t, "over_loopback") {
+				cl = realClient
+				r.Label("transport:loopback-real-http-client")
+			}
+			resp, cerr, pan := CallClient(cl, tg.op, params)
 			if pan != "" {
 				fail("client-panic", pan)
 				return
